@@ -60,7 +60,7 @@ SRC_DEPS = {
     "C11": ["src/util.rs", "src/response.rs event_stream", "src/event.rs"],
     "C15": ["src/cookie.rs", "src/headers.rs"], "C16": ["src/time.rs"], "C18": ["src/log/logger.rs log()"],
     "C17": ["src/log/tag_value.rs", "src/log/logger.rs write_jsonl"], "C19": ["src/log/log_file_writer.rs", "src/log/prefix_file_set.rs"],
-    "C14": ["src/headers.rs"], "C12": ["src/token_set.rs"],
+    "C14": ["src/headers.rs"], "C12": ["src/token_set.rs", "src/accept.rs accept_loop"], "C13": ["src/accept.rs accept_loop", "src/token_set.rs"],
 }
 
 ALLOWED_AXIOMS = set()  # names of standard-library axioms a property theorem may depend on (none needed so far)
